@@ -23,6 +23,20 @@ fn main() {
     let spec: Spec = serde_json::from_str(&spec_text).unwrap_or_else(|e| fail(format!("cannot parse {}: {e}", args[1])));
     let mut u = Universe::default();
     let mut file_errors: Vec<String> = Vec::new();
+    let mut extern_file: Option<syn::File> = None;
+    if !spec.extern_items.is_empty() {
+        // stand-ins for items of external crates, declared in the spec
+        let idx = spec.files.len();
+        let text = spec.extern_items.join("\n");
+        match syn::parse_file(&text) {
+            Err(e) => file_errors.push(format!("<spec:extern_items>:{}: cannot parse: {e}", e.span().start().line)),
+            Ok(f) => {
+                // (files are pushed below in order; the stand-ins come last)
+                let _ = idx;
+                extern_file = Some(f);
+            }
+        }
+    }
     for (i, p) in spec.files.iter().enumerate() {
         u.files.push(p.clone());
         match std::fs::read_to_string(format!("{repo}/{p}")) {
@@ -32,6 +46,11 @@ fn main() {
                 Ok(f) => u.add_items(i, &f.items),
             },
         }
+    }
+    if let Some(f) = &extern_file {
+        u.files.push("<spec:extern_items>".to_owned());
+        let idx = u.files.len() - 1;
+        u.add_items(idx, &f.items);
     }
     let mut tr = Tr {
         u: &u,
@@ -44,6 +63,7 @@ fn main() {
         cur_file: String::new(),
         notes: Vec::new(),
         opaque: Vec::new(),
+        req_ignore_assign: Vec::new(),
     };
     let _ = FEATURES.set(spec.cfg_features.clone());
     let mut results = Vec::new();
@@ -52,6 +72,7 @@ fn main() {
         let kind = rq.kind.clone().unwrap_or_else(|| "fn".to_owned());
         let label = rq.name.clone().unwrap_or_else(|| rq.item.clone());
         tr.in_progress.clear();
+        tr.req_ignore_assign = rq.ignore_assign.clone();
         tr.cur_file = "<spec>".into();
         let first_new = tr.out.len();
         let r: R<String> = if !file_errors.is_empty() {
@@ -70,6 +91,9 @@ fn main() {
                 "loop_tail" => tr.loop_tail(rq),
                 "guard_prefix" => tr.guard_prefix(rq),
                 "call_trace" => tr.call_trace(rq),
+                "effect_list" => tr.effect_list(rq),
+                "closure_value" => tr.closure_value(rq),
+                "loop_body" => tr.loop_body(rq),
                 k => Err(TErr { file: "<spec>".into(), line: 0, msg: format!("unknown request kind `{k}`"), excluded: false }),
             }
         };
@@ -123,6 +147,12 @@ fn main() {
             }
         }
     }
+    if !spec.extern_items.is_empty() {
+        o += "   Stand-ins for items of external crates (declared in the spec, not read from any source):\n";
+        for it in &spec.extern_items {
+            o += &format!("     {}\n", it.replace("(*", "( *").replace("*)", "* )"));
+        }
+    }
     for r in &results {
         if r["ok"] == false {
             o += &format!(
@@ -133,12 +163,14 @@ fn main() {
         }
     }
     o += "*)\n";
-    o += "From Coq Require Import NArith ZArith Bool.\nFrom Coq Require Import Strings.String.\n\nModule Gen.\n\n";
+    let module = spec.module.clone().unwrap_or_else(|| "Gen".to_owned());
+    let list_import = if spec.module.is_some() { " List" } else { "" };
+    o += &format!("From Coq Require Import NArith ZArith Bool{list_import}.\nFrom Coq Require Import Strings.String.\n\nModule {module}.\n\n");
     for e in &tr.out {
         o += &e.text;
         o += "\n\n";
     }
-    o += "End Gen.\n";
+    o += &format!("End {module}.\n");
     print!("{o}");
     if let Some(mp) = args.get(2) {
         let defs: Vec<serde_json::Value> = tr
